@@ -295,7 +295,7 @@ bool FileLogger::rotate(bool force)
 			rlst.push_back(ostr.str());
 		}
 
-		for (unsigned ii(_rotnum); ii; --ii)
+		for (unsigned ii(static_cast<unsigned>(rlst.size()) - 1); ii; --ii) // rlst is capped at max_rotation generations
 			rename (rlst[ii - 1].c_str(), rlst[ii].c_str());
 	}
 
